@@ -66,6 +66,37 @@ class NotInlinable(Exception):
     pass
 
 
+# Method names defined by more than one class of the analysed package.  A call self.m(...) / cls.m(...) of such a method is
+# dynamically dispatched: which body runs depends on the class of the receiver (a subclass may override a newly extracted hook),
+# so it is NOT one body that could be expanded in place.  Filled by scan_method_names(); None = only the current module is known.
+_DISPATCHED = None
+
+
+def _method_owners(tree, tag, owners):
+    for n in ast.walk(tree):
+        if isinstance(n, ast.ClassDef):
+            for s in n.body:
+                if isinstance(s, (ast.FunctionDef, ast.AsyncFunctionDef)):
+                    owners.setdefault(s.name, set()).add(f'{tag}:{n.name}')
+
+
+def scan_method_names(src_root):
+    """Record which method names are defined by several classes anywhere under src_root (overridable hooks)."""
+    global _DISPATCHED
+    owners = {}
+    for dirpath, dirnames, filenames in os.walk(src_root):
+        dirnames[:] = [d for d in dirnames if d != '__pycache__']
+        for fn in filenames:
+            if fn.endswith('.py'):
+                try:
+                    with open(os.path.join(dirpath, fn), encoding='utf-8') as f:
+                        _method_owners(ast.parse(f.read()), os.path.join(dirpath, fn), owners)
+                except (SyntaxError, OSError, ValueError):
+                    continue
+    _DISPATCHED = {n for n, o in owners.items() if len(o) > 1}
+    return _DISPATCHED
+
+
 def _is_generator(func):
     for n in _walk_own(func):
         if isinstance(n, (ast.Yield, ast.YieldFrom)):
@@ -253,6 +284,9 @@ class Inliner:
         self.defs = defs
         self.module_helpers = {h.node.name: h for h in self.helpers.values() if h.kind == 'module'}
         self.module_classes = {c.name: c for c in tree.body if isinstance(c, ast.ClassDef)}
+        own = {}
+        _method_owners(tree, modname, own)
+        self.local_dispatched = {n for n, o in own.items() if len(o) > 1}
         self._fresh = 0
 
     # ------------------------------------------------------------------ resolution of a call to a helper
@@ -270,8 +304,9 @@ class Inliner:
                 hp = host.args.posonlyargs + host.args.args
                 first = hp[0].arg if hp else None
                 if recv == first and recv in ('self', 'cls') or recv == host_cls.name:
+                    dispatched = recv != host_cls.name and f.attr in (self.local_dispatched if _DISPATCHED is None else _DISPATCHED | self.local_dispatched)
                     for h in self.helpers.values():
-                        if h.kind == 'class' and h.owner is host_cls and h.node.name == f.attr:
+                        if h.kind == 'class' and h.owner is host_cls and h.node.name == f.attr and not dispatched:
                             return h, f.value
             # ClassName.new_classmethod(...) / ClassName.new_staticmethod(...) from anywhere in the module
             if recv in self.module_classes and recv not in self._host_locals:
